@@ -139,6 +139,10 @@ def k_coding(p):
     ref = ref_encode(acc, start, [int(b) for b in bits], fast, table)
     r, ex = call(dsw.encode, bits, acc, start, is_faster=fast, vt_length=vt, shuffles=table)
     if ref is None:
+        if ex is None and want in ("walk", "all"):
+            got = r[0] if vt > 0 else r
+            if not is_walk(acc, start, got):
+                return True, "encode returned %r which is not a walk from %d (the documented scheme runs into a dead end here)" % (got, start)
         return False, "precondition false (dead end / out-degree 3 in fast mode): encode -> %r %r" % (r, ex)
     if ex is not None:
         return True, "encode raised %s (reference strand %r)" % (ex, ref)
